@@ -263,8 +263,11 @@ def run(ctx):
     else:
         sp = [dict(name='all-options', c=consts(ALL_OPTS, 3, 6, 3, dev)),
               dict(name='all-options-steady-clock', c=consts(ALL_OPTS, 3, 7, 3, dev), next_='NextClassic')]
-        for j in range(2):
-            sp.append(dict(name='deep-%d' % j, c=consts(option_sets(ctx.seed + 1 + j), 4, 8, 4, dev, same=2), keep=0.15, primary=False))
+        # seeded samples of two deeper graphs: 4 chunks, 4 runs - 8 operations with an advancing clock, 6 operations with
+        # up to two runs that do not advance it
+        sp.append(dict(name='deep-steady-clock', c=consts(option_sets(ctx.seed + 1), 4, 8, 4, dev), next_='NextClassic',
+                       keep=0.12, primary=False))
+        sp.append(dict(name='deep-same-second', c=consts(option_sets(ctx.seed + 2), 4, 6, 4, dev, same=2), keep=0.3, primary=False))
         graphs_replay(ctx, sp, cov)
     need = ['Commit', 'BeginTail', 'AbortTail', 'Pack', 'Backup', 'Damage:missing', 'Damage:trunc', 'Damage:alt']
     lacking = [a for a in need if not cov['actions'].get(a)]
@@ -303,12 +306,15 @@ def run(ctx):
                 'decision, the directory, the new file, its .index and the .dat lines are compared with the state TLC printed '
                 'and a recovery as of now is made; on the first visit of every state recovery as of every run date and full + '
                 'quick verification are real calls compared with TLC\'s obs table, and every Damage transition of the state is '
-                'applied, observed the same way and undone; packs are made at every pack time of the file (after the k-th '
+                'applied, observed the same way and undone; a run may fall into the clock second of the previous one; Damage '
+                'is any one file of the repository (data file of any generation, .index); recoveries are made with the full '
+                'date, with -w and with a truncated date that names the run\'s instant; packs are made at every pack time of the file (after the k-th '
                 'transaction, k = 1 frees nothing) between backups of every option combination of the graph; distinct = distinct action sequence; non-trivial = at least two '
                 'backup runs, or a backup run and a damaged file; exhaustive refers to the primary graph (3 chunks, 3 backup '
-                'runs, %s operations, %s): all of its transitions and states are replayed; the thorough tier adds seeded '
-                'samples (a quarter of the subtrees) of two deeper graphs (4 chunks, 4 runs, 8 operations)' % (
-                    (6, 'three seeded option combinations') if q else (7, 'all 16 option combinations')),
+                'runs, %s; plus the same with the clock advancing at every run and damage to data files only, %s operations): '
+                'all of their transitions and states are replayed; the thorough tier adds seeded samples of two deeper graphs '
+                '(4 chunks, 4 runs: 8 operations with an advancing clock, 6 operations with up to two runs within one second)' % (
+                    ('three seeded option combinations, 5 operations', 6) if q else ('all 16 option combinations, 6 operations', 7)),
         'traces_validated_against_impl': cov['behaviours'],
         'replayed_steps': cov['steps'],
         'observed_states': cov['observed_states'],
